@@ -657,7 +657,23 @@ def run_job_uncached(job, tier='quick', log=print):
             res['notes'].append('%s: answer discarded (log contains "ignoring")' % s)
             continue
         verdicts[s] = (p, r['secs'])
+    def counts(pr):
+        # does a failure of this CBMC property count for the property being checked (VP_PID)?  unnamed obligations count for all
+        from recipes import COMPOSED_OF
+        pid = os.environ.get('VP_PID')
+        name, _k = classify(pr, meta['names'])
+        if not pid or not name or not re.match(r'^C\d\d', name):
+            return True
+        pre = name.split('.')[0]
+        return pre == pid or pre in COMPOSED_OF.get(pid, ())
+    sof_counts = True
     if not verdicts and sof is not None:
+        # a failure that belongs to another property only (shared job) must not end the job: fall through to split mode
+        for pr in sof[0]['props']:
+            if 'sourceLocation' not in pr and pr.get('trace'):
+                pr['sourceLocation'] = pr['trace'][-1].get('sourceLocation', {})
+        sof_counts = any(counts(pr) for pr in sof[0]['props'] if str(pr.get('status', '')).upper() in ('FAILURE', 'FAILED') and 'VP_CANARY' not in pr.get('description', ''))
+    if not verdicts and sof is not None and sof_counts:
         # only the stop-on-fail run answered: one failed obligation, everything else unknown
         p, secs = sof
         for pr in p['props']:
@@ -672,6 +688,7 @@ def run_job_uncached(job, tier='quick', log=print):
                                            loc='%s:%s' % (os.path.basename(pr.get('sourceLocation', {}).get('file', '?')), pr.get('sourceLocation', {}).get('line', '?')),
                                            solver='cadical --stop-on-fail', secs=secs, real=real, job=job['name'], trace=pr.get('trace')))
         res['notes'].append('full runs gave no answer; the --stop-on-fail run found a failing obligation')
+        res['truncated'] = True     # one failing obligation only: never reused for another property's check
         res['status'] = 'failed' if res['obligations'] else 'undecided'
         if any('undefined function' in o['description'] for o in res['obligations']):
             res['status'] = 'extract-error'
@@ -683,15 +700,6 @@ def run_job_uncached(job, tier='quick', log=print):
     if not verdicts and job.get('split', 'auto') in ('auto', 'always'):
         # split mode: each contract-level property on its own, the support properties together
         st = job.get('timeout', {}).get(tier, 300 if tier == 'quick' else 1800)
-        def counts(pr):
-            # does a failure of this CBMC property count for the property being checked (VP_PID)?  unnamed obligations count for all
-            from recipes import COMPOSED_OF
-            pid = os.environ.get('VP_PID')
-            name, _k = classify(pr, meta['names'])
-            if not pid or not name or not re.match(r'^C\d\d', name):
-                return True
-            pre = name.split('.')[0]
-            return pre == pid or pre in COMPOSED_OF.get(pid, ())
         props, notes = B1.split_run(igb, solvers, st, workers=job.get('split_workers', 6), object_bits=job.get('object_bits', 12), extra=job.get('cbmc_flags', []),
                                     failfast=(counts if (tier == 'quick' and not os.environ.get('VP_NO_FAILFAST')) else None))
         if any('obligations not yet started were skipped' in x for x in notes):
